@@ -5,13 +5,17 @@ A case is a program: a list of commands run against a list of HTTPHeaders object
   ["on", i, "add", n, v] ["on", i, "set", n, v] ["on", i, "del", n] ["on", i, "get", n]
   ["on", i, "get_list", n] ["on", i, "contains", n] ["on", i, "keys"] ["on", i, "get_all"]
   ["on", i, "parse_line", line] ["on", i, "str"]
-  ["copy", i]  ["parse", text]  ["reparse", i]
+  ["on", i, "getd", n] ["on", i, "pop", n] ["on", i, "setdefault", n, v] ["on", i, "items"] ["on", i, "len"]
+  ["on", i, "update", [[n, v], ...]]      (MutableMapping mixins)
+  ["copy", i]  ["parse", text]  ["reparse", i]  ["frompairs", [[n, v], ...]]  ["eq", i, j]
 Observable: the result (or exception kind) of every command, then list(h) and
 list(h.get_all()) of every object.
 """
 import itertools
+import os
 
 from harness import gallina as G
+from harness.framework import REPO, COQ
 
 ID = "C06"
 COQ_DIRS = ["C06"]
@@ -22,7 +26,21 @@ CHECK_FN = "check_case"
 INPUT_TYPE = "(list cmd)"
 EXHAUSTIVE = {"quick": True, "thorough": True}
 
+
+
+def pre_build():
+    """regenerate coq/Gen/C06_src.v from the working tree (fail closed)"""
+    import importlib
+    import sys
+    sys.path.insert(0, os.path.join(os.path.dirname(COQ), "translators"))
+    import c06_src
+    importlib.reload(c06_src)
+    c06_src.emit(REPO, os.path.join(COQ, "Gen", "C06_src.v"))
+
+
 TRUSTED_BASE = [
+    "translators/c06_src.py (strict ast reader of _normalize_header, HTTP_WHITESPACE and the _ABNF character classes / pattern shapes; fails closed); "
+    "the composition of the classes into field_value / token (first and last character a field_vchar, '+') is checked as a fixed template, its regex semantics is hand-modelled",
     "Python's re engine on _ABNF.field_name / _ABNF.field_value / r'\\r?\\n$' and str.split/strip/capitalize/join are modelled by hand "
     "(is_token, is_field_value, strip_eol, split1, capitalize, join) and tied only by the correspondence cases",
     "field names given to the unvalidated mapping methods (h[n]=v, h[n], del h[n], n in h, get_list) are ASCII: str.capitalize on non-ASCII "
@@ -55,6 +73,14 @@ MALFORMED = ["nocolon", ":", ": v", "a :v", "", "\r\n", "\n", "\r", "a", "a:\x00
 
 def on(i, *a):
     return ["on", i] + list(a)
+
+
+def _pairs_arg(l):
+    """the argument of update() / the dict-style constructor: a dict when that loses nothing, else a list of tuples"""
+    ks = [k for k, _ in l]
+    if len(set(ks)) == len(ks) and len(l) % 2 == 0:
+        return {k: v for k, v in l}
+    return [(k, v) for k, v in l]
 
 
 def _norm_err(f):
@@ -108,6 +134,18 @@ def run_impl(case):
                 r = _norm_err(unit(lambda: h.parse_line(args[0])))
             elif name == "str":
                 r = _norm_err(lambda: str(h))
+            elif name == "getd":
+                r = _norm_err(lambda: h.get(args[0]))
+            elif name == "pop":
+                r = _norm_err(lambda: h.pop(args[0]))
+            elif name == "setdefault":
+                r = _norm_err(lambda: h.setdefault(args[0], args[1]))
+            elif name == "items":
+                r = _norm_err(lambda: [[k, v] for k, v in h.items()])
+            elif name == "len":
+                r = _norm_err(lambda: len(h))
+            elif name == "update":
+                r = _norm_err(unit(lambda: h.update(_pairs_arg(args[0]))))
             else:
                 raise ValueError(name)
             results.append(r)
@@ -118,6 +156,18 @@ def run_impl(case):
                 continue
             src = objs[i]
             new = _norm_err((lambda: src.copy()) if kind == "copy" else (lambda: HTTPHeaders.parse(str(src))))
+            if isinstance(new, G.Tag):
+                results.append(new)
+            else:
+                objs.append(new)
+                results.append(None)
+        elif kind == "eq":
+            if not (0 <= c[1] < len(objs) and 0 <= c[2] < len(objs)):
+                results.append(G.Tag("BadTarget"))
+                continue
+            results.append(_norm_err(lambda: objs[c[1]] == objs[c[2]]))
+        elif kind == "frompairs":
+            new = _norm_err(lambda: HTTPHeaders(_pairs_arg(c[1])))
             if isinstance(new, G.Tag):
                 results.append(new)
             else:
@@ -144,6 +194,10 @@ def _t(s):
     return G.gbytes(s)
 
 
+def _gpairs(l):
+    return G.glist(["(%s, %s)" % (_t(k), _t(v)) for k, v in l], "(text * text)")
+
+
 def coq_cmd(c):
     kind = c[0]
     if kind == "on":
@@ -159,6 +213,12 @@ def coq_cmd(c):
             "get_all": lambda: "GetAll",
             "parse_line": lambda: "(ParseLine %s)" % _t(args[0]),
             "str": lambda: "ToString",
+            "getd": lambda: "(GetD %s)" % _t(args[0]),
+            "pop": lambda: "(Pop %s)" % _t(args[0]),
+            "setdefault": lambda: "(SetDefault %s %s)" % (_t(args[0]), _t(args[1])),
+            "items": lambda: "Items",
+            "len": lambda: "Len",
+            "update": lambda: "(Update %s)" % _gpairs(args[0]),
         }[name]()
         return "On %s %s" % (G.gnat(i), opt)
     if kind == "copy":
@@ -167,6 +227,10 @@ def coq_cmd(c):
         return "Reparse %s" % G.gnat(c[1])
     if kind == "parse":
         return "Parse %s" % _t(c[1])
+    if kind == "frompairs":
+        return "FromPairs %s" % _gpairs(c[1])
+    if kind == "eq":
+        return "Eq %s %s" % (G.gnat(c[1]), G.gnat(c[2]))
     raise ValueError(kind)
 
 
@@ -264,6 +328,14 @@ class _Ref:
         n, v = line.split(":", 1)
         return self.add(n, v.strip(" \t"))
 
+    def update(self, l):
+        for k, v in l:
+            r = self.find(k)
+            if r:
+                r[2] = [v]
+            else:
+                self.rows.append([_fold(k), _disp(k), [v]])
+
     def pairs(self):
         return [[r[1], v] for r in self.rows for v in r[2]]
 
@@ -331,6 +403,41 @@ def py_expected(case):
                 res.append(h.parse_line(a[0]))
             elif name == "str":
                 res.append(h.text())
+            elif name == "getd":
+                r = h.find(a[0])
+                res.append(",".join(r[2]) if r else None)
+            elif name == "pop":
+                r = h.find(a[0])
+                if r:
+                    h.rows.remove(r)
+                    res.append(",".join(r[2]))
+                else:
+                    res.append(G.Tag("KeyError"))
+            elif name == "setdefault":
+                r = h.find(a[0])
+                if r:
+                    res.append(",".join(r[2]))
+                else:
+                    h.rows.append([_fold(a[0]), _disp(a[0]), [a[1]]])
+                    res.append(a[1])
+            elif name == "items":
+                res.append([[r[1], ",".join(r[2])] for r in h.rows])
+            elif name == "len":
+                res.append(len(h.rows))
+            elif name == "update":
+                h.update(a[0])
+                res.append(None)
+        elif c[0] == "eq":
+            if not (0 <= c[1] < len(objs) and 0 <= c[2] < len(objs)):
+                res.append(G.Tag("BadTarget"))
+                continue
+            x, y = objs[c[1]], objs[c[2]]
+            res.append({r[1]: ",".join(r[2]) for r in x.rows} == {r[1]: ",".join(r[2]) for r in y.rows})
+        elif c[0] == "frompairs":
+            new = _Ref()
+            new.update(c[1])
+            objs.append(new)
+            res.append(None)
         else:
             if c[0] == "parse":
                 new = _Ref.parse(c[1])
@@ -356,7 +463,14 @@ def _same(a, b):
 
 
 def _validated(case):
-    return all(not (c[0] == "on" and c[2] == "set") or (_is_token(c[3]) and _is_fv(c[4])) for c in case)
+    for c in case:
+        if c[0] == "on" and c[2] in ("set", "setdefault") and not (_is_token(c[3]) and _is_fv(c[4])):
+            return False
+        if c[0] == "on" and c[2] == "update" and not all(_is_token(k) and _is_fv(v) for k, v in c[3]):
+            return False
+        if c[0] == "frompairs" and not all(_is_token(k) and _is_fv(v) for k, v in c[1]):
+            return False
+    return True
 
 
 def py_check(case, obs):
@@ -422,16 +536,25 @@ PROBE6 = [
     lambda p: on(0, "parse_line", "a: p%d\r\n" % p),
 ]
 PROBE7 = PROBE6 + [lambda p: on(0, "add", "b", "q%d" % p)]
+PROBE8 = PROBE6 + [lambda p: on(0, "pop", "a"), lambda p: on(0, "setdefault", "A", "d%d" % p)]
+PROBE9 = PROBE8 + [lambda p: on(0, "add", "b", "q%d" % p)]
 
 
 def cache_probe(alpha, n, keys):
-    reads = [on(0, "get", k) for k in keys]
+    # the mapping-style reads: h[k], h.get(k), list(h.items()) -- all go through __getitem__
     for seq in itertools.product(range(len(alpha)), repeat=n):
         prog = []
         for p, k in enumerate(seq):
             prog.append(alpha[k](p))
-            prog += reads
-        prog += [on(0, "get_list", keys[0]), on(0, "str"), ["copy", 0], on(1, "get", keys[0]), ["reparse", 0]]
+            kind = (p + n) % 3
+            if kind == 0:
+                prog += [on(0, "get", k2) for k2 in keys]
+            elif kind == 1:
+                prog += [on(0, "getd", k2) for k2 in keys]
+            else:
+                prog.append(on(0, "items"))
+        prog += [on(0, "get", keys[0]), on(0, "get_list", keys[0]), on(0, "str"), ["copy", 0], on(1, "get", keys[0]),
+                 ["eq", 0, 1], ["reparse", 0], ["eq", 0, 2]]
         yield prog
 
 
@@ -464,6 +587,10 @@ def rand_block(rng):
     return t + rng.choice(["", "", "\r\n", "x", " tail"])
 
 
+def rand_pairs(rng):
+    return [[rand_name(rng, False), rand_value(rng, 0.1)] for _ in range(rng.randrange(0, 4))]
+
+
 def rand_prog(rng, maxlen):
     n = rng.randrange(1, maxlen + 1)
     prog, nobj = [], 1
@@ -485,7 +612,20 @@ def rand_prog(rng, maxlen):
         elif r < 0.82:
             c = on(i, "parse_line", rand_line(rng))
         elif r < 0.85:
-            c = on(i, rng.choice(["keys", "get_all", "str"]))
+            c = on(i, rng.choice(["keys", "get_all", "str", "items", "len", "items"]))
+        elif r < 0.875:
+            k = rng.random()
+            if k < 0.3:
+                c = on(i, "pop", rand_name(rng, False))
+            elif k < 0.55:
+                c = on(i, "setdefault", rand_name(rng, False), rand_value(rng, 0.1))
+            elif k < 0.7:
+                c = on(i, "update", rand_pairs(rng))
+            elif k < 0.85:
+                c = ["eq", i, rng.randrange(nobj)]
+            else:
+                c = ["frompairs", rand_pairs(rng)]
+                nobj += 1
         elif r < 0.91:
             c = ["copy", i]
             nobj += 1          # may fail; targets past the end are legal (BadTarget)
@@ -496,11 +636,17 @@ def rand_prog(rng, maxlen):
             c = ["parse", rand_block(rng)]
             nobj += 1
         prog.append(c)
-        if c[0] == "on" and c[2] in ("add", "set", "del", "parse_line", "get") and rng.random() < 0.6:
+        if c[0] == "on" and c[2] in ("add", "set", "del", "parse_line", "get", "pop", "setdefault", "update") and rng.random() < 0.6:
             # read a recently touched key (under another spelling) right after the write
             recent = [x[3] for x in prog[-6:] if x[0] == "on" and x[2] in ("add", "set", "get") and all(ord(ch) < 128 for ch in x[3])]
             nm = rng.choice(recent) if recent else rng.choice(NAMES)
-            prog.append(on(c[1], "get", rng.choice([nm, nm.upper(), nm.lower()])))
+            rk = rng.random()
+            if rk < 0.6:
+                prog.append(on(c[1], "get", rng.choice([nm, nm.upper(), nm.lower()])))
+            elif rk < 0.8:
+                prog.append(on(c[1], "getd", rng.choice([nm, nm.upper(), nm.lower()])))
+            else:
+                prog.append(on(c[1], "items"))
     prog += observe(rng.randrange(nobj), (rng.choice(NAMES), rng.choice(NAMES)))
     return prog
 
@@ -529,6 +675,14 @@ def corpus_cases():
         [["parse", " leading"], ["parse", "a: 1\n\nb: 2"], ["parse", "a: 1\r\n\r\nb"], ["parse", ""]],
         [on(0, "parse_line", "a: 1\n\n"), on(0, "parse_line", "b: 2\r\n\n"), on(0, "parse_line", "c: 3\n\r\n"), on(0, "get_all")],
         [on(3, "keys"), ["copy", 2], ["reparse", 1]],
+        # MutableMapping mixins, dict-style constructor, ==
+        [["frompairs", [["a", "1"], ["A", "2"], ["x-y", " raw"]]], on(1, "items"), on(1, "len"), on(1, "pop", "X-Y"), on(1, "pop", "X-Y"),
+         on(1, "setdefault", "b", "3"), on(1, "setdefault", "B", "4"), on(1, "getd", "zz"), on(1, "update", [["b", "5"], ["c", "6"]]),
+         ["copy", 1], ["eq", 1, 2], on(2, "add", "c", "7"), ["eq", 1, 2], ["eq", 2, 2], ["eq", 0, 0], ["eq", 0, 5]],
+        [["frompairs", [["a", "1"], ["b", "2"]]], ["frompairs", [["B", "2"], ["A", "1"]]], ["eq", 1, 2], on(1, "add", "a", "x"), ["eq", 1, 2],
+         on(2, "set", "a", "1,x"), ["eq", 1, 2], ["eq", 2, 1]],
+        # the seeded S1 pattern: two values, mapping read, continuation, mapping read (h.get / items / ==)
+        [on(0, "add", "a", "1"), on(0, "add", "A", "2"), on(0, "getd", "a"), on(0, "parse_line", " c"), on(0, "getd", "a"), on(0, "items"), ["copy", 0], ["eq", 0, 1]],
         # witnesses of the defect fixed by 3fd7028: folding onto an empty value / an empty continuation
         [on(0, "add", "a", ""), on(0, "parse_line", " x"), on(0, "get_all"), ["copy", 0], ["reparse", 0]],
         [["parse", "A:\r\n x\r\n"], ["copy", 1], ["reparse", 1], on(1, "get", "a")],
@@ -542,9 +696,9 @@ def gen_cases(rng, tier):
     if tier == "quick":
         for n in (1, 2):
             out += list(exhaustive(ALPHA12, n))          # 13 + 169
-        out += list(exhaustive(ALPHA8, 3))               # 512
-        for n in (1, 2, 3, 4):
-            out += list(cache_probe(PROBE6, n, ["A"]))   # 6 + 36 + 216 + 1296
+        for n in (1, 2, 3):
+            out += list(cache_probe(PROBE8, n, ["A"]))   # 8 + 64 + 512
+        out += list(cache_probe(PROBE6, 4, ["A"]))       # 1296
         nrand, maxlen = 450, 12
     elif tier == "search":
         nrand, maxlen = 1500, 8
@@ -553,8 +707,9 @@ def gen_cases(rng, tier):
             out += list(exhaustive(ALPHA12, n))          # 13 + 169 + 2197
         out += list(exhaustive(ALPHA11, 4))              # 14641
         out += list(exhaustive(ALPHA7, 5))               # 16807
-        for n in (1, 2, 3, 4, 5):
-            out += list(cache_probe(PROBE7, n, ["A", "b"]))   # 7 + 49 + 343 + 2401 + 16807
+        for n in (1, 2, 3, 4):
+            out += list(cache_probe(PROBE9, n, ["A", "b"]))   # 9 + 81 + 729 + 6561
+        out += list(cache_probe(PROBE7, 5, ["A", "b"]))       # 16807
         nrand, maxlen = 3000, 14
     for _ in range(nrand):
         out.append(rand_prog(rng, maxlen))
@@ -565,7 +720,7 @@ HAS_SEARCH_TIER = True
 
 
 def nontrivial(case, o):
-    if not any(c[0] != "on" or c[2] in ("add", "set", "del", "parse_line") for c in case):
+    if not any(c[0] != "on" or c[2] in ("add", "set", "del", "parse_line", "pop", "setdefault", "update") for c in case):
         return None
     return G.jsonable(case)
 
